@@ -3,7 +3,8 @@
     The dataflow of _calc_free / _calc_free_traits / _check_limit is the table
     [TM.Gen.Tables.c19_tables], regenerated from the Python AST on every run. *)
 From Coq Require Import ZArith List Bool.
-From TM Require Import Api.Capacity Api.CapacityP Gen.Tables.
+From Coq Require Import Permutation.
+From TM Require Import Api.Capacity Api.CapacityP Api.CapacityMore Gen.Tables.
 From TM Require Import Base.ShapeCanon.
 Import ListNotations.
 Open Scope Z_scope.
@@ -46,6 +47,60 @@ Example C19_nonvacuous :
   check_capacity c19_tables ex_p ex_allocs 3 {| q_res := ex_r 100 6 5; q_traits := [7] |} = Reject /\
   check_capacity c19_tables ex_p ex_allocs 1 {| q_res := ex_r 100 10 10; q_traits := [7] |} = Accept.
 Proof. vm_compute. repeat split. Qed.
+
+(** the decision does not depend on the order in which the admin backend lists the other reservations *)
+Theorem C19_order_irrelevant : forall p allocs allocs' old rq,
+  wf_inputs p allocs rq -> Permutation allocs allocs' ->
+  check_capacity c19_tables p allocs old rq = check_capacity c19_tables p allocs' old rq.
+Proof. intros p allocs allocs' old rq H1 H2. exact (check_capacity_order_irrelevant c19_tables p allocs allocs' old rq C19_table_is_canonical H1 H2). Qed.
+Print Assumptions C19_order_irrelevant.
+
+(** "any unit spellings": the same quantities, however spelled, in partition, limits, reservations and request give the same decision *)
+Theorem C19_spelling_irrelevant : forall p p' allocs allocs' old rq rq',
+  wf_inputs p allocs rq -> wf_inputs p' allocs' rq' ->
+  same_quantity (p_res p) (p_res p') ->
+  Forall2 (fun l l' => l_trait l = l_trait l' /\ same_quantity (l_res l) (l_res l')) (p_limits p) (p_limits p') ->
+  same_store allocs allocs' ->
+  same_quantity (q_res rq) (q_res rq') -> q_traits rq = q_traits rq' ->
+  check_capacity c19_tables p allocs old rq = check_capacity c19_tables p' allocs' old rq'.
+Proof. intros p p' allocs allocs' old rq rq' H1 H2 H3 H4 H5 H6 H7. exact (check_capacity_spelling_irrelevant c19_tables p p' allocs allocs' old rq rq' C19_table_is_canonical H1 H2 H3 H4 H5 H6 H7). Qed.
+Print Assumptions C19_spelling_irrelevant.
+
+(** "the one being replaced excluded": whatever the replaced reservation held, the decision about its replacement is the same *)
+Theorem C19_replaced_ignored : forall p a a' allocs rq,
+  wf_inputs p (a :: allocs) rq -> wf_inputs p (a' :: allocs) rq -> a_id a' = a_id a ->
+  check_capacity c19_tables p (a :: allocs) (a_id a) rq = check_capacity c19_tables p (a' :: allocs) (a_id a) rq.
+Proof. intros p a a' allocs rq H1 H2 H3. exact (check_capacity_ignores_replaced c19_tables p a a' allocs rq C19_table_is_canonical H1 H2 H3). Qed.
+Print Assumptions C19_replaced_ignored.
+
+(** withdrawing a (non-negative) reservation never turns an acceptance into a rejection *)
+Theorem C19_fewer_promises_keep_accept : forall p a allocs old rq,
+  wf_inputs p (a :: allocs) rq -> nonneg_res (a_res a) ->
+  check_capacity c19_tables p (a :: allocs) old rq = Accept -> check_capacity c19_tables p allocs old rq = Accept.
+Proof. intros p a allocs old rq H1 H2 H3. exact (check_capacity_drop_keeps_accept c19_tables p a allocs old rq C19_table_is_canonical H1 H2 H3). Qed.
+Print Assumptions C19_fewer_promises_keep_accept.
+
+(** a request that is not accepted writes nothing; an accepted one stores exactly what was asked, replacing its own id only *)
+Theorem C19_request_effect : forall p allocs id rq,
+  let '(allocs', o) := api_request c19_tables p allocs id rq in
+  (o <> Accept -> allocs' = allocs) /\
+  (o = Accept -> allocs' = {| a_id := id; a_res := q_res rq; a_traits := q_traits rq |} :: others allocs id).
+Proof. intros p allocs id rq. exact (api_request_effect c19_tables p allocs id rq). Qed.
+Print Assumptions C19_request_effect.
+
+(** non-vacuity of the metamorphic statements: a re-ordered, re-spelled store ("20G" = "20480M") is decided alike, both ways *)
+Definition ex_allocs' := [ {| a_id := 2; a_res := ex_r 100 20 20; a_traits := [] |};
+                           {| a_id := 1; a_res := ex_r 100 5 5; a_traits := [7] |} ].
+Definition ex_rM (c m d : Z) : res3 :=
+  {| f_cpu := {| r_num := c; r_suf := SNone |};
+     f_disk := {| r_num := d * 1024; r_suf := SUnit 2 false |};
+     f_mem := {| r_num := m * 1024 * 1024 * 1024; r_suf := SNone |} |}.
+Example C19_metamorphic_nonvacuous :
+  Permutation ex_allocs ex_allocs' /\
+  same_quantity (ex_r 100 6 5) (ex_rM 100 6 5) /\
+  check_capacity c19_tables ex_p ex_allocs' 3 {| q_res := ex_rM 100 5 5; q_traits := [7] |} = Accept /\
+  check_capacity c19_tables ex_p ex_allocs' 3 {| q_res := ex_rM 100 6 5; q_traits := [7] |} = Reject.
+Proof. split; [apply perm_swap|]. vm_compute. repeat split. Qed.
 
 (** the functions named by this property's anchors still have the statement skeleton the model was written from
     (re-extracted from the Python AST on every run, harness/tables_shape.py + harness/shape_pins.json; kept last so that
